@@ -26,6 +26,8 @@
 #include <fcppt/options/impl/is_flag.hpp>
 #include <fcppt/options/impl/next_arg.hpp>
 #include <fcppt/runtime_index.hpp>
+#include <fcppt/tag.hpp>
+#include <fcppt/extract_from_string_locale.hpp>
 #include <fcppt/args_vector.hpp>
 
 #include <sys/stat.h>
@@ -33,6 +35,8 @@
 #include <cstdio>
 #include <cstring>
 #include <deque>
+#include <list>
+#include <unordered_map>
 #include <filesystem>
 #include <fstream>
 #include <map>
@@ -73,9 +77,50 @@ struct d2 : base {};
 
 std::vector<long long> ints(std::string const &s) { return vh::int_list(s); }
 
-std::string payload(std::string const &tok) // "s:chars"
+// a value as a string that lives on the heap (longer than the small-string buffer): reading it after its
+// destruction is a use-after-free for ASan, which a trivially destructible element would not show
+std::string long_string(long long v) { return std::to_string(v) + ":" + std::string(40, 'x'); }
+long long long_value(std::string const &s)
 {
+  if (s.size() < 42 || s.compare(s.size() - 40, 40, std::string(40, 'x')) != 0)
+    return -999;
+  return std::stoll(s.substr(0, s.find(':')));
+}
+template <typename C>
+std::string join_long(C const &c)
+{
+  std::vector<long long> v;
+  for (auto const &e : c)
+    v.push_back(long_value(e));
+  return vh::join(v);
+}
+std::string optlong(fcppt::optional::object<std::string> const &o)
+{
+  return o.has_value() ? "some " + std::to_string(long_value(o.get_unsafe())) : std::string{"none"};
+}
+
+std::string payload(std::string const &tok) // "s:chars" or "x:hex"
+{
+  if (tok.size() >= 2 && tok[0] == 'x' && tok[1] == ':')
+  {
+    std::string r;
+    for (std::size_t i = 2; i + 1 < tok.size(); i += 2)
+      r.push_back(static_cast<char>(std::stoi(tok.substr(i, 2), nullptr, 16)));
+    return r;
+  }
   return tok.substr(2);
+}
+
+std::string hex_payload(std::string const &s)
+{
+  static char const digits[] = "0123456789abcdef";
+  std::string r{"x:"};
+  for (unsigned char c : s)
+  {
+    r.push_back(digits[c >> 4]);
+    r.push_back(digits[c & 15]);
+  }
+  return r;
 }
 
 // exact-size heap copy: no terminating zero, ASan redzone right behind the last character
@@ -141,6 +186,13 @@ void make_scratch()
   std::filesystem::create_directory_symlink(scratch / "dir", scratch / "symdir", ec);         // a link to a directory
   std::filesystem::create_symlink(scratch / "symfile", scratch / "symsym", ec);               // link -> link -> file5
   (void)::mkfifo((scratch / "fifo").c_str(), 0600);                                           // exists, not a regular file
+  // a directory with two files, a sub-directory holding one file, and a dangling link
+  std::filesystem::create_directory(scratch / "dir2");
+  { std::ofstream f(scratch / "dir2" / "a"); f << "a"; }
+  { std::ofstream f(scratch / "dir2" / "b.txt"); f << "bb"; }
+  std::filesystem::create_directory(scratch / "dir2" / "sub");
+  { std::ofstream f(scratch / "dir2" / "sub" / "c"); f << "ccc"; }
+  std::filesystem::create_symlink(scratch / "nowhere", scratch / "dir2" / "dang", ec);
 }
 
 void remove_scratch()
@@ -150,9 +202,15 @@ void remove_scratch()
     std::filesystem::remove_all(scratch, ec);
 }
 
+}
+#include "c01_env.cpp"
+namespace c01
+{
 std::string handle1(std::vector<std::string> const &t)
 {
   std::string const &op = t[0];
+  if (auto r = handle_env(t))
+    return *r;
   if (op == "atopt" && t.size() == 3)
   {
     auto const v0 = ints(t[1]);
@@ -163,7 +221,20 @@ std::string handle1(std::vector<std::string> const &t)
     std::string const r2 = optref(fcppt::container::at_optional(d, i));
     std::vector<long long> const &cv = v;
     std::string const r3 = optref(fcppt::container::at_optional(cv, i));
-    return r1 == r2 && r1 == r3 ? r1 : "containers-disagree " + r1 + " / " + r2 + " / " + r3;
+    // a std::string (characters '0' + value) and a vector of heap strings
+    std::string str;
+    std::vector<std::string> vs;
+    for (auto const e : v0)
+    {
+      str.push_back(static_cast<char>('0' + e));
+      vs.push_back(long_string(e));
+    }
+    vs.shrink_to_fit();
+    auto const rs = fcppt::container::at_optional(str, i);
+    std::string const r4 = rs.has_value() ? "some " + std::to_string(rs.get_unsafe().get() - '0') : std::string{"none"};
+    auto const rv = fcppt::container::at_optional(vs, i);
+    std::string const r5 = rv.has_value() ? "some " + std::to_string(long_value(rv.get_unsafe().get())) : std::string{"none"};
+    return r1 == r2 && r1 == r3 && r1 == r4 && r1 == r5 ? r1 : "containers-disagree " + r1 + " / " + r2 + " / " + r3 + " / " + r4 + " / " + r5;
   }
   if ((op == "front" || op == "back") && t.size() == 2)
   {
@@ -172,7 +243,13 @@ std::string handle1(std::vector<std::string> const &t)
     std::deque<long long> d(v0.begin(), v0.end());
     std::string const r1 = optref(op == "front" ? fcppt::container::maybe_front(v) : fcppt::container::maybe_back(v));
     std::string const r2 = optref(op == "front" ? fcppt::container::maybe_front(d) : fcppt::container::maybe_back(d));
-    return r1 == r2 ? r1 : "containers-disagree";
+    std::list<std::string> ls;
+    for (auto const e : v0)
+      ls.push_back(long_string(e));
+    std::list<std::string> const &cls = ls;
+    auto const rl = op == "front" ? fcppt::container::maybe_front(cls) : fcppt::container::maybe_back(cls);
+    std::string const r3 = rl.has_value() ? "some " + std::to_string(long_value(rl.get_unsafe().get())) : std::string{"none"};
+    return r1 == r2 && r1 == r3 ? r1 : "containers-disagree";
   }
   if (op == "popback" && t.size() == 2)
   {
@@ -183,14 +260,41 @@ std::string handle1(std::vector<std::string> const &t)
     std::string const r1 = p1 + " rest=" + vh::join(v);
     std::string const p2 = opt(fcppt::container::pop_back(d));
     std::string const r2 = p2 + " rest=" + vh::join(d);
-    return r1 == r2 ? r1 : "containers-disagree";
+    std::vector<std::string> vs;
+    std::deque<std::string> ds;
+    std::list<std::string> ls;
+    for (auto const e : v0)
+    {
+      vs.push_back(long_string(e));
+      ds.push_back(long_string(e));
+      ls.push_back(long_string(e));
+    }
+    std::string const p3 = optlong(fcppt::container::pop_back(vs));
+    std::string const r3 = p3 + " rest=" + join_long(vs);
+    std::string const p4 = optlong(fcppt::container::pop_back(ds));
+    std::string const r4 = p4 + " rest=" + join_long(ds);
+    std::string const p5 = optlong(fcppt::container::pop_back(ls));
+    std::string const r5 = p5 + " rest=" + join_long(ls);
+    return r1 == r2 && r1 == r3 && r1 == r4 && r1 == r5 ? r1 : "containers-disagree " + r1 + " / " + r2 + " / " + r3 + " / " + r4 + " / " + r5;
   }
   if (op == "popfront" && t.size() == 2)
   {
     auto const v0 = ints(t[1]);
     std::deque<long long> d(v0.begin(), v0.end());
     std::string const p1 = opt(fcppt::container::pop_front(d));
-    return p1 + " rest=" + vh::join(d);
+    std::string const r1 = p1 + " rest=" + vh::join(d);
+    std::deque<std::string> ds;
+    std::list<std::string> ls;
+    for (auto const e : v0)
+    {
+      ds.push_back(long_string(e));
+      ls.push_back(long_string(e));
+    }
+    std::string const p2 = optlong(fcppt::container::pop_front(ds));
+    std::string const r2 = p2 + " rest=" + join_long(ds);
+    std::string const p3 = optlong(fcppt::container::pop_front(ls));
+    std::string const r3 = p3 + " rest=" + join_long(ls);
+    return r1 == r2 && r1 == r3 ? r1 : "containers-disagree " + r1 + " / " + r2 + " / " + r3;
   }
   if (op == "findopt" && t.size() == 3)
   {
@@ -200,8 +304,25 @@ std::string handle1(std::vector<std::string> const &t)
       auto const c = kv.find(':');
       m.emplace(std::stoll(kv.substr(0, c)), std::stoll(kv.substr(c + 1))); // first occurrence wins, like the model
     }
-    auto const r = fcppt::container::find_opt(m, std::stoll(t[2]));
-    return r.has_value() ? "some " + std::to_string(r.get_unsafe().get().second) : std::string{"none"};
+    long long const key = std::stoll(t[2]);
+    auto const r = fcppt::container::find_opt(m, key);
+    std::string const r1 = r.has_value() ? "some " + std::to_string(r.get_unsafe().get().second) : std::string{"none"};
+    std::map<long long, long long> const &cm = m;
+    auto const rc = fcppt::container::find_opt(cm, key);
+    std::string const r2 = rc.has_value() ? "some " + std::to_string(rc.get_unsafe().get().second) : std::string{"none"};
+    auto const rm = fcppt::container::find_opt_mapped(m, key);
+    std::string const r3 = rm.has_value() ? "some " + std::to_string(rm.get_unsafe().get()) : std::string{"none"};
+    auto const ri = fcppt::container::find_opt_iterator(m, key);
+    std::string const r4 = ri.has_value() ? (ri.get_unsafe() == m.end() ? std::string{"end-iterator"} : "some " + std::to_string(ri.get_unsafe()->second)) : std::string{"none"};
+    std::unordered_map<long long, long long> um(m.begin(), m.end());
+    auto const ru = fcppt::container::find_opt_mapped(um, key);
+    std::string const r5 = ru.has_value() ? "some " + std::to_string(ru.get_unsafe().get()) : std::string{"none"};
+    std::map<std::string, std::string> sm;
+    for (auto const &kv : m)
+      sm.emplace(long_string(kv.first), long_string(kv.second));
+    auto const rs = fcppt::container::find_opt_mapped(sm, long_string(key));
+    std::string const r6 = rs.has_value() ? "some " + std::to_string(long_value(rs.get_unsafe().get())) : std::string{"none"};
+    return r1 == r2 && r1 == r3 && r1 == r4 && r1 == r5 && r1 == r6 ? r1 : "containers-disagree " + r1 + " / " + r2 + " / " + r3 + " / " + r4 + " / " + r5 + " / " + r6;
   }
   if (op == "fromrange" && t.size() == 3)
   {
@@ -215,24 +336,52 @@ std::string handle1(std::vector<std::string> const &t)
         out.push_back(e);
       return "some " + vh::join(out);
     };
+    std::deque<long long> d(v0.begin(), v0.end());
+    auto showl = [](auto const &o) {
+      if (!o.has_value())
+        return std::string{"none"};
+      return "some " + join_long(o.get_unsafe());
+    };
+    auto rvalue_strings = [&v0] {
+      std::vector<std::string> vs;
+      for (auto const e : v0)
+        vs.push_back(long_string(e));
+      vs.shrink_to_fit();
+      return vs;
+    };
+    auto all = [&]<std::size_t N>(std::integral_constant<std::size_t, N>) {
+      std::string const r1 = show(fcppt::array::from_range<N>(v));
+      std::string const r2 = show(fcppt::array::from_range<N>(d));
+      std::string const r3 = showl(fcppt::array::from_range<N>(rvalue_strings()));
+      return r1 == r2 && r1 == r3 ? r1 : "sources-disagree " + r1 + " / " + r2 + " / " + r3;
+    };
     switch (vh::to_ull(t[1]))
     {
-    case 0: return show(fcppt::array::from_range<0>(v));
-    case 1: return show(fcppt::array::from_range<1>(v));
-    case 2: return show(fcppt::array::from_range<2>(v));
-    case 3: return show(fcppt::array::from_range<3>(v));
-    case 4: return show(fcppt::array::from_range<4>(v));
+    case 0: return all(std::integral_constant<std::size_t, 0>{});
+    case 1: return all(std::integral_constant<std::size_t, 1>{});
+    case 2: return all(std::integral_constant<std::size_t, 2>{});
+    case 3: return all(std::integral_constant<std::size_t, 3>{});
+    case 4: return all(std::integral_constant<std::size_t, 4>{});
     default: return "bad-op";
     }
   }
-  if (op == "rtindex" && t.size() == 3)
+  if (op == "rtindex" && t.size() == 4)
   {
-    auto const i = static_cast<unsigned>(vh::to_ull(t[2]));
-    auto run = [i]<unsigned Max>(std::integral_constant<unsigned, Max>) {
-      return fcppt::runtime_index<std::integral_constant<unsigned, Max>>(
-          i, [](auto const idx) { return "f " + std::to_string(decltype(idx)::value); }, [] { return std::string{"fail"}; });
+    // rtindex <u8|u32|u64> <max> <index>
+    unsigned long long const i64 = vh::to_ull(t[3]);
+    std::string const &ty = t[1];
+    if ((ty == "u8" && i64 > 255) || (ty == "u32" && i64 > 4294967295ULL) || (ty != "u8" && ty != "u32" && ty != "u64"))
+      return "bad-op";
+    auto run = [i64, &ty]<unsigned Max>(std::integral_constant<unsigned, Max>) {
+      auto const f = [](auto const idx) { return "f " + std::to_string(decltype(idx)::value); };
+      auto const fail = [] { return std::string{"fail"}; };
+      if (ty == "u8")
+        return fcppt::runtime_index<std::integral_constant<std::uint8_t, Max>>(static_cast<std::uint8_t>(i64), f, fail);
+      if (ty == "u64")
+        return fcppt::runtime_index<std::integral_constant<std::uint64_t, Max>>(static_cast<std::uint64_t>(i64), f, fail);
+      return fcppt::runtime_index<std::integral_constant<unsigned, Max>>(static_cast<unsigned>(i64), f, fail);
     };
-    switch (vh::to_ull(t[1]))
+    switch (vh::to_ull(t[2]))
     {
     case 0: return run(std::integral_constant<unsigned, 0>{});
     case 1: return run(std::integral_constant<unsigned, 1>{});
@@ -275,57 +424,44 @@ std::string handle1(std::vector<std::string> const &t)
     auto const r = fcppt::options::impl::next_arg(args, names);
     return r.has_value() ? "some " + std::to_string(r.get_unsafe() - args.begin()) : std::string{"none"};
   }
-  if (op == "readchars" && t.size() == 3)
-  {
-    std::istringstream in{payload(t[1])};
-    auto const r = fcppt::io::read_chars(in, static_cast<std::size_t>(vh::to_ull(t[2])));
-    if (!r.has_value())
-      return "none";
-    return "some s:" + std::string(r.get_unsafe().begin(), r.get_unsafe().end());
-  }
-  if (op == "streamtostring" && t.size() == 2)
-  {
-    std::istringstream in{payload(t[1])};
-    auto const r = fcppt::io::stream_to_string(in);
-    return r.has_value() ? "some s:" + r.get_unsafe() : std::string{"none"};
-  }
   if (op == "filesize" && t.size() == 2)
   {
-    std::filesystem::path const p =
-        t[1] == "emptypath" ? std::filesystem::path{}
-        : t[1] == "dot"     ? std::filesystem::path{"."}
-        : t[1] == "longname" ? scratch / std::string(300, 'n')                 // ENAMETOOLONG
-        : t[1] == "underfile" ? scratch / "file5" / "x"                         // ENOTDIR
-        : t[1] == "underloop" ? scratch / "selfloop" / "x"                      // ELOOP in a parent component
-        : t[1] == "longpath" ? scratch / std::string(5000, 'p')                 // longer than PATH_MAX
-                             : scratch / t[1];
-    auto const r = fcppt::filesystem::file_size(p);
+    auto const r = fcppt::filesystem::file_size(path_of_kind(t[1]));
     return r.has_value() ? "some " + std::to_string(r.get_unsafe()) : std::string{"none"};
   }
-  if (op == "rmext" && t.size() == 2)
+  if ((op == "extract" || op == "extractg") && t.size() == 3)
   {
-    std::filesystem::path const r = fcppt::filesystem::remove_extension(std::filesystem::path{payload(t[1])});
-    (void)r;
-    return "ok";
-  }
-  if (op == "extract" && t.size() == 3)
-  {
+    // extract_from_string (locale = fcppt::insert_extract_locale(), which is the global locale) with the global locale
+    // left classic, and extract_from_string_locale for the classic locale and for C.utf8 while the GLOBAL locale
+    // groups digits: an implementation that forgets to imbue the locale it was given reads "1,000" as 1000.
+    // `extractg` runs the default variant under the grouping global locale as well (see notes: DEFECT CANDIDATE).
     std::string const s = payload(t[2]);
-    if (t[1] == "int") (void)fcppt::extract_from_string<int>(s);
-    else if (t[1] == "uint") (void)fcppt::extract_from_string<unsigned>(s);
-    else if (t[1] == "short") (void)fcppt::extract_from_string<short>(s);
-    else if (t[1] == "ulong") (void)fcppt::extract_from_string<unsigned long>(s);
-    else if (t[1] == "string") (void)fcppt::extract_from_string<std::string>(s);
-    else return "bad-op";
-    return "ok";
-  }
-  if (op == "dyncast" && t.size() == 2)
-  {
-    d1 a;
-    d2 b;
-    base c;
-    base &ref = t[1] == "d1" ? static_cast<base &>(a) : t[1] == "d2" ? static_cast<base &>(b) : c;
-    return fcppt::cast::dynamic<d1>(ref).has_value() ? "some" : "none";
+    static std::locale const cutf8{"C.utf8"};
+    bool const global_too = op == "extractg";
+    auto run = [&s, global_too]<typename T>(fcppt::tag<T>) {
+      auto show = [](fcppt::optional::object<T> const &o) {
+        if (!o.has_value())
+          return std::string{"none"};
+        if constexpr (std::is_same_v<T, std::string>)
+          return "some " + hex_payload(o.get_unsafe());
+        else
+          return "some " + std::to_string(o.get_unsafe());
+      };
+      std::string r1 = show(fcppt::extract_from_string<T>(s));
+      hostile_locale_guard const guard{};
+      std::string const r2 = show(fcppt::extract_from_string_locale<T>(s, std::locale::classic()));
+      std::string const r3 = show(fcppt::extract_from_string_locale<T>(s, cutf8));
+      if (global_too)
+        r1 = show(fcppt::extract_from_string<T>(s));
+      return r1 == r2 && r1 == r3 ? r1 : "locales-disagree " + r1 + " / " + r2 + " / " + r3;
+    };
+    if (t[1] == "int") return run(fcppt::tag<int>{});
+    if (t[1] == "uint") return run(fcppt::tag<unsigned>{});
+    if (t[1] == "short") return run(fcppt::tag<short>{});
+    if (t[1] == "ulong") return run(fcppt::tag<unsigned long>{});
+    if (t[1] == "long") return run(fcppt::tag<long>{});
+    if (t[1] == "string") return run(fcppt::tag<std::string>{});
+    return "bad-op";
   }
   return handle(t); // scalar tables of C06
 }
@@ -364,6 +500,7 @@ std::string guarded(std::vector<std::string> const &t)
 int main()
 {
   init();
+  c01::prepare_env();
   c01::make_scratch();
   vh::op_budget() = 60;
   int const rc = vh::run(c01::guarded);
